@@ -29,6 +29,9 @@ def sh(cmd, cwd=None, env=None, timeout=3600):
 def main():
     prop, n, out = sys.argv[1], sys.argv[2], sys.argv[3]
     tests = sys.argv[4:]
+    store_n = n
+    if ":" in n:  # "<n in the agent's directory>:<number to store under>"
+        n, store_n = n.split(":")
     patch = os.path.join(out, f"change{n}.diff")
     demo = os.path.join(out, f"demo{n}.py")
     meta = os.path.join(out, f"meta{n}.json")
@@ -81,7 +84,7 @@ def main():
     err = [p for p, r in verdicts.items() if r == 2]
     print("checks reporting VIOLATION:", caught, " exit2:", err)
     sh("git checkout -- . && git clean -fdq", cwd=VER)
-    dst = f"/verif/seeded/{prop}-{n}"
+    dst = f"/verif/seeded/{prop}-{store_n}"
     os.makedirs(dst, exist_ok=True)
     shutil.copy(patch, os.path.join(dst, "patch.diff"))
     shutil.copy(demo, os.path.join(dst, "demo.py"))
